@@ -336,6 +336,20 @@ def r3(P: Project, R: Report) -> None:
     for n in walk_local(pm.node):
         if isinstance(n, ast.If) and any(loop is x for b in n.body for x in walk_local(b)) and ast.unparse(n.test) == "self.batch_processor.batching_enabled":
             guard_ok = True
+    if not guard_ok:
+        # … or on every path: each routing call inside the loop happens under a literal that batching is enabled
+        # (the mode itself, or the gate `can_process_batch(<data>)`, which for a list is the mode — decided above)
+        in_loop_calls = {id(c) for c in walk_local(loop) if isinstance(c, ast.Call)}
+        seen_lits = []
+
+        def gev(call, st, an2):
+            if id(call) in in_loop_calls and call_name(call).startswith("self.") and call_name(call)[5:] in route_names:
+                seen_lits.append(st.lits)
+            return None
+
+        run_paths(pm.node, event_of=gev, fallible=False)
+        accepted = ("self.batch_processor.batching_enabled", f"self.batch_processor.can_process_batch({data})")
+        guard_ok = bool(seen_lits) and all(any(a in lits for a in accepted) for lits in seen_lits)
     R.ob("R3", "batch loop guarded by the current batching mode", guard_ok, f"{pm.module.rel}:{loop.lineno}", "the loop over the batch is not under `if self.batch_processor.batching_enabled`")
     # mode is read per message: every read of the mode lies in the per-message function or inside the reader loop
     reader = [f for f in meths.values() if any(isinstance(n, ast.AsyncFor) and "stdout" in ast.unparse(n.iter) for n in walk_local(f.node))]
